@@ -66,6 +66,9 @@ def judge(chk, prop, spec, results, verdicts, obs_index):
   return nviol
 
 
+DESIGN_INVS = ["InvTopo", "InvWellFormed", "InvSkeleton", "InvModes"]
+
+
 def main():
   prop = sys.argv[1]
   args = common.parse_args(sys.argv[2:])
@@ -79,10 +82,12 @@ def main():
   by_cfg = {}
   per_cfg = {}
   for name, consts in cfgs.items():
-    r, dumps = pipecheck.design_run("%s_%s" % (prop, name), consts, spec["inv"], timeout=7200)
+    # all four design-level invariants of the graph properties in one exploration (shared by C01 / C02 / C03 through the TLC cache)
+    r, dumps = pipecheck.design_run("%s_%s" % (prop, name), consts, DESIGN_INVS, timeout=7200)
     states += r.distinct
     trans += r.generated
-    per_cfg[name] = {"states": r.distinct, "transitions": r.generated, "terminal_scenarios": len(dumps), "wall_s": round(r.wall, 1)}
+    per_cfg[name] = {"states": r.distinct, "transitions": r.generated, "terminal_scenarios": len(dumps), "wall_s": round(r.wall, 1),
+                     "reused_identical_tlc_run": bool(getattr(r, "cached", False))}
     if r.error or not r.finished or r.rc not in (0, 12):
       chk.machinery("TLC failed on %s (rc=%s): %s" % (name, r.rc, r.out[-600:]))
       continue
@@ -190,7 +195,7 @@ def main():
               "or the model I/O is in a quantised mode",
       "exhaustive": len(chosen) == len(all_dumps),
       "configs": per_cfg, "outcomes": outcomes, "impl_wall_s": round(t_impl, 1),
-      "observed_clauses": spec["clauses"], "design_invariants": spec["inv"],
+      "observed_clauses": spec["clauses"], "design_invariants": DESIGN_INVS,
       "samples": [dict(scenario=r["scn"], outcome=r["outcome"], why=r["why"], concrete_ops=r.get("codes")) for r in results[:2] + results[-2:]],
   })
   chk.assumptions += [
